@@ -6,6 +6,7 @@ from tfsa.report import norm
 from tfsa.resolve import const_str
 from . import common as C
 from .linear import Lin, lin_of, module_consts
+from tfsa.reach import ReachDefs
 
 DIGEST = {"sha1": 20, "sha256": 32}
 
@@ -156,6 +157,7 @@ def recorded_piece_length(ctx, rid):
     fl = Flow(ctx.prog, ctx.res)
     n = 0
     inits = []
+    NOT_A_LENGTH = ("builtins.bytes", "builtins.bytearray", "builtins.memoryview", "hashlib.sha1", "hashlib.sha256")
     for cq in ("torrentfile.recheck:FeedChecker", "torrentfile.recheck:HashChecker"):
         # the constructor of the piece checker, and those of package base classes it shares with its sibling
         for c in [ctx.prog.cls(cq)] + [b for b in ctx.prog.mro(ctx.prog.cls(cq)) if b is not ctx.prog.cls(cq)]:
@@ -169,6 +171,9 @@ def recorded_piece_length(ctx, rid):
             terms = fl.term(st.value, f)
             if not any(is_recorded(x) for x in walk_terms(terms)):
                 continue
+            if all(t[0] == "ext" and t[1] in NOT_A_LENGTH for t in terms) or \
+                    (isinstance(st.value, ast.Call) and isinstance(st.value.func, ast.Attribute) and st.value.func.attr in ("digest", "hexdigest")):
+                continue        # a buffer of that many bytes, or a digest: made from the piece length, but not a piece length
             n += 1
             other = [t for t in terms if not is_recorded(t)]
             who = "%s.%s" % (cq.split(":")[1], st.targets[0].attr)
@@ -906,6 +911,7 @@ def digest_pairing(ctx, rid):
             hs = [n for n in own_nodes(fn.node) if isinstance(n, ast.Call) and C.is_ext_call(ctx, n, fn, ("hashlib.sha1", "hashlib.sha256", "hashlib.md5"))]
             names = {d for n in hs for d in C.ext_name(ctx, n, fn)}
             ctx.decide(rid, fn, names == {"hashlib.sha1"}, "computed side is sha1", "computed side uses %s with 20-byte recorded hashes" % sorted(names), "computed hash of " + fn.qualname)
+            _computed_from_piece(ctx, rid, fn, g)
     # v2 computed side: the hasher handed to process_current is FileHasher (sha256 layer hashes) or the zero Padder (sha256)
     hc = ctx.prog.cls("torrentfile.recheck:HashChecker")
     nf = hc.methods.get("next_file") or next(iter(hc.methods.values()))
@@ -924,6 +930,74 @@ def digest_pairing(ctx, rid):
                 if isinstance(n, ast.Call) and C.is_ext_call(ctx, n, m, ("hashlib.sha1", "hashlib.md5")):
                     ctx.violated(rid, m, "the zero Padder hashes with %s; v2 piece hashes are sha256" % C.ext_name(ctx, n, m), n)
     ctx.floor("recorded-hash slice sites", 2, sites)
+
+
+def _computed_from_piece(ctx, rid, fn, g):
+    """v1: the hash handed out for a piece is, on every path, the digest of the bytes of THAT piece (what the stream iterator
+    produced in this call).  A value taken from elsewhere (a cached digest) is accepted only under a test that establishes
+    what the piece holds: identity or equality with the buffer the cached digest was made from."""
+    rets = [n for n in own_nodes(fn.node) if isinstance(n, ast.Return) and isinstance(n.value, ast.Tuple) and len(n.value.elts) == 4]
+    pieces = [n for n in own_nodes(fn.node) if isinstance(n, ast.Assign) and len(n.targets) == 1 and isinstance(n.targets[0], ast.Name) and isinstance(n.value, ast.Call)
+              and norm(n.value.func) == "next"]
+    label = "computed hash is of the piece read :: " + fn.qualname
+    if len(rets) != 1 or len(pieces) != 1 or not isinstance(rets[0].value.elts[0], ast.Name):
+        ctx.undecided(rid, fn, "the result tuple, or the statement that takes the next piece of the stream, was not identified in %s" % fn.qualname, label)
+        return
+    P = pieces[0].targets[0].id
+    H = rets[0].value.elts[0].id
+    rdf = ReachDefs(fn, g)
+    defs = rdf.reaching(H, C.stmt_node(ctx, fn, rets[0]))
+    if not defs:
+        ctx.undecided(rid, fn, "no definition of the computed hash %r reaches the result" % H, label)
+        return
+    cls = fn.cls
+
+    def single_store(attr):
+        st = [a for m in cls.methods.values() for a in own_nodes(m.node) if isinstance(a, (ast.Assign, ast.AugAssign))
+              and any(norm(t) == "%s.%s" % (m.self_name, attr) for t in (a.targets if isinstance(a, ast.Assign) else [a.target]))]
+        return st[0].value if len(st) == 1 and isinstance(st[0], ast.Assign) else None
+
+    def digest_of(v):
+        """the expression hashed when v is sha1(E).digest(), else None"""
+        if isinstance(v, ast.Call) and isinstance(v.func, ast.Attribute) and v.func.attr == "digest" and isinstance(v.func.value, ast.Call) \
+                and C.is_ext_call(ctx, v.func.value, fn, ("hashlib.sha1",)) and len(v.func.value.args) == 1:
+            return v.func.value.args[0]
+        return None
+    for d in defs:
+        v = getattr(d, "value", None)
+        hashed = digest_of(v) if v is not None else None
+        if hashed is not None and isinstance(hashed, ast.Name) and hashed.id == P:
+            ctx.holds(rid, fn, "the hash handed out is sha1(%s).digest(), %s being the piece the stream produced in this call" % (P, P), label + " :: " + norm(v)[:40])
+            continue
+        site = d.stmt if getattr(d, "stmt", None) is not None else rets[0]
+        if v is not None and isinstance(v, ast.Attribute) and isinstance(v.value, ast.Name) and v.value.id == fn.self_name and cls is not None:
+            src = single_store(v.attr)
+            made_from = digest_of(src) if src is not None else None
+            deps = [(C.test_expr(b), lab) for b, lab in g.control_deps(d.node) if C.test_expr(b) is not None]
+            established = False
+            looks = False
+            for t, lab in deps:
+                for a in C.atoms_of(t):
+                    if any(isinstance(x, ast.Name) and x.id == P for x in ast.walk(a)) and not all(
+                            isinstance(ctx.prog.parent.get(x), ast.Call) and norm(ctx.prog.parent.get(x).func) == "len" for x in ast.walk(a) if isinstance(x, ast.Name) and x.id == P):
+                        looks = True
+                    if isinstance(a, ast.Compare) and len(a.ops) == 1 and isinstance(a.ops[0], (ast.Is, ast.Eq)) and lab == "true" and isinstance(t, (ast.Compare,)) or \
+                            (isinstance(a, ast.Compare) and len(a.ops) == 1 and isinstance(a.ops[0], (ast.Is, ast.Eq)) and lab == "true" and isinstance(t, ast.BoolOp) and isinstance(t.op, ast.And)):
+                        sides = [a.left, a.comparators[0]]
+                        if any(isinstance(x, ast.Name) and x.id == P for x in sides) and made_from is not None and any(norm(x) == norm(made_from) for x in sides) \
+                                and isinstance(made_from, ast.Attribute) and single_store(made_from.attr) is not None:
+                            established = True
+            if established:
+                ctx.holds(rid, fn, "the cached digest %s is handed out only when the piece IS the buffer it was computed from (%s)" % (norm(v), norm(made_from)), label + " :: " + norm(v)[:40])
+            elif not looks:
+                ctx.violated(rid, fn, "the hash handed out for a piece is `%s` under `%s`: a stored value chosen without looking at what the piece holds (the tests speak of flags and of its length only) - "
+                             "a piece of real data of that length is reported with the hash of something else, so intact pieces fail and the percentage is wrong" % (
+                                 norm(v), " and ".join(("" if lab == "true" else "not ") + "(" + norm(t)[:60] + ")" for t, lab in deps) or "no condition"), site)
+            else:
+                ctx.undecided(rid, fn, "the hash handed out for a piece is the stored value `%s` under a test of the piece this rule does not evaluate" % norm(v), label + " :: " + norm(v)[:40])
+        else:
+            ctx.undecided(rid, fn, "the computed hash %r is defined as `%s`, which is not the sha1 digest of the piece %r read in this call; what it is was not followed" % (H, norm(v)[:60] if v is not None else "?", P),
+                          label + " :: other")
 
 
 # ------------------------------------------------------------------------------------------ R6 size accounting
